@@ -297,6 +297,20 @@ _ids_snap = st.builds(lambda y, w, x: '%02dw%02d%s' % (y, w, x),
                       st.integers(30, 60), st.integers(1, 52),
                       st.sampled_from('abc'))
 _ids_free = st.text('abcdefXYZ-_ 0123456789.', min_size=1, max_size=12)
+# ids that contain a release-looking part without being one (the version
+# manifest has 'b1.8.1', 'a1.2.6', '3D Shareware v1.34',
+# '1.19_experimental-snapshot-1.1'), and release ids of 2 and 4 parts
+_ids_tricky = st.builds(
+    lambda pre, core, suf: pre + core + suf,
+    st.sampled_from(['', '', 'b', 'a', 'v', '3D Shareware v', 'fabric-',
+                     'x ', '.', '1.19_experimental-snapshot-', '-']),
+    st.one_of(_ids_release,
+              st.builds(lambda a, b: '%d.%d' % (a, b), st.integers(0, 3),
+                        st.integers(0, 99)),
+              st.builds(lambda a, b: '1.%d.%d.1' % (a, b),
+                        st.integers(20, 30), st.integers(0, 9))),
+    st.sampled_from(['', '', '', '-pre1', ' Pre-Release 1', 'x', '.', ' ',
+                     '-rc2', '_01']))
 
 
 class VersionsMachine(RuleBasedStateMachine):
@@ -361,13 +375,13 @@ class VersionsMachine(RuleBasedStateMachine):
             self.nontail = True
         self.added.append((vid, proto))
 
-    @rule(vid=st.one_of(_ids_release, _ids_snap, _ids_free),
+    @rule(vid=st.one_of(_ids_release, _ids_snap, _ids_free, _ids_tricky),
           kind=st.sampled_from(['ord', 'pre']), supported=st.booleans())
     def append_record(self, vid, kind, supported):
         self.hist.append(('append_record', dict(vid=vid, kind=kind, supported=supported)))
         self._add(None, vid, self._new_proto(kind), supported)
 
-    @rule(vid=st.one_of(_ids_release, _ids_snap, _ids_free),
+    @rule(vid=st.one_of(_ids_release, _ids_snap, _ids_free, _ids_tricky),
           kind=st.sampled_from(['ord', 'pre']), supported=st.booleans(),
           pos=st.integers(0, 10 ** 6))
     def insert_record(self, vid, kind, supported, pos):
@@ -375,7 +389,7 @@ class VersionsMachine(RuleBasedStateMachine):
         self.hist.append(('insert_record', dict(vid=vid, kind=kind, supported=supported, pos=pos)))
         self._add(pos, vid, self._new_proto(kind), supported)
 
-    @rule(vid=st.one_of(_ids_release, _ids_snap, _ids_free),
+    @rule(vid=st.one_of(_ids_release, _ids_snap, _ids_free, _ids_tricky),
           which=st.integers(0, 10 ** 6), supported=st.booleans(),
           pos=st.one_of(st.none(), st.integers(0, 10 ** 6)))
     def duplicate_protocol_record(self, vid, which, supported, pos):
@@ -432,7 +446,7 @@ class VersionsMachine(RuleBasedStateMachine):
             list(self.mc.KNOWN_MINECRAFT_VERSION_RECORDS)
         self.ctx.label('records_rebound')
 
-    @rule(vid=st.one_of(_ids_release, _ids_free), which=st.integers(0, 10**6))
+    @rule(vid=st.one_of(_ids_release, _ids_free, _ids_tricky), which=st.integers(0, 10**6))
     def legacy_add_supported(self, vid, which):
         """The documented legacy way: add to SUPPORTED_MINECRAFT_VERSIONS
         (an already known protocol) and call initglobals()."""
